@@ -188,7 +188,7 @@ Print Assumptions c27_flags_sound.
 Theorem c27_record_meaning : forall (parse_jwt : bytes -> token) cfg now vals,
   (decide (validity_of parse_jwt cfg now vals) = true <-> oidc_code_accepts parse_jwt cfg now vals) /\
   (property_literal (validity_of parse_jwt cfg now vals) = true <-> oidc_property parse_jwt cfg now vals).
-Proof. intros. split; [apply decide_iff | apply property_literal_iff]. Qed.
+Proof. exact record_meaning. Qed.
 Print Assumptions c27_record_meaning.
 
 (* error classes and the principal *)
